@@ -9,6 +9,7 @@ SKEL = [
     ("miniA", "h/a/x/", "/m", "h/a/x"),
     ("miniA", "h/s/q1/", "", "h/s/q1"),
     ("miniA", "h/s/q1/", "/o/c", "h/s/q1"),
+    ("miniA", "h/a/v091x/", "/m", "h/a/v091x"),      # the version token also occurs inside another field (asset 'v091x')
     ("shipped", "hamlet/a/char/ophelia/model/", "/w/ma", "hamlet/a/char/ophelia/model"),
     ("shipped", "hamlet/a/char/ophelia/model/", "/w", "hamlet/a/char/ophelia/model"),
     ("shipped", "hamlet/s/sq010/sh0010/anim/", "", "hamlet/s/sq010/sh0010/anim"),
